@@ -88,7 +88,7 @@ func exemptFieldType(t types.Type) string {
 }
 
 func init() {
-	register("C18", []string{"./accountant", "./gossip", "./notaryserver", "./cache", "./dataprovider", "./pipe"},
+	register("C18", []string{"./..."}, // the whole program: interface dispatch (VTA) needs the wiring in cmd/
 		"A static lockset discipline standing in for the race detector over ALL schedules: for every field of the node's long-lived structs that is written by an operation of the property's mix, "+
 			"all accesses reachable from those operations hold one common lock (exclusively at the writes), unless every access belongs to one single-instance background loop; "+
 			"variables captured by goroutines started from those operations are not stored to afterwards; published vertices/transactions are written only while being built. "+
